@@ -533,7 +533,13 @@ impl WriteBackend for OpenDALBackend {
     ) -> RusticResult<()> {
         trace!("writing tpe: {tpe:?}, id: {id}");
         let filename = self.path(tpe, id);
-        _ = self.operator.write(&filename, content.into_vec()).map_err(|err| {
+        // opendal never finishes writing a buffer which contains an empty part
+        let content: Vec<_> = content
+            .into_vec()
+            .into_iter()
+            .filter(|part| !part.is_empty())
+            .collect();
+        _ = self.operator.write(&filename, content).map_err(|err| {
             RusticError::with_source(
                 ErrorKind::Backend,
                 "Writing file `{path}` failed in the backend. Please check if the given path is correct.",
